@@ -601,6 +601,20 @@ func (s *State) atLoopHead(l *Loop) bool {
 
 // bindRangeIndex exposes the hidden index of a range loop as `rangeindex` (and `$k` = rangeindex+1).
 func (c *Ctx) bindRangeIndex(env *SpecEnv, s *State, fr *Frame, l *Loop) {
+	// range over a map: `visited` is the set of keys the iteration has produced so far
+	for _, ins := range l.Head.Instrs {
+		if nx, ok := ins.(*ssa.Next); ok && !nx.IsString {
+			if rg, ok := nx.Iter.(*ssa.Range); ok {
+				if cell, ok := c.rangeCells[rg]; ok {
+					if t, ok := s.Cells[cell]; ok {
+						if m, ok := c.under(rg.X.Type()).(*types.Map); ok {
+							env.Vars["visited"] = specTV(t, "(Array "+c.sortOf(m.Key())+" Bool)")
+						}
+					}
+				}
+			}
+		}
+	}
 	for _, ins := range l.Head.Instrs {
 		if st, ok := ins.(*ssa.Store); ok {
 			if a, ok := st.Addr.(*ssa.Alloc); ok && a.Comment == "rangeindex" {
